@@ -3,6 +3,9 @@ package ledger
 import "verifharness/drv"
 
 // boundaries suggested by the hypotheses of the C12 theorems (`HeightsOK`, duplicate-free committee lists)
+//
+// The two `*-height-wraps` scenarios are the excluded point of `HeightsOK`; the code has no guard there and the
+// oracle reports the known findings C12:unstaking-marker-at-height-zero / C12:paused-marker-at-height-zero.
 func init() {
 	scenarios = append(scenarios,
 		// hypothesis `HeightsOK` of C12.invStaking_preserved: height + UnstakingBlocks = 0 mod 2^64. Governance installs
@@ -37,8 +40,10 @@ func init() {
 			emptyBlocks(c, 3)
 			c.Finish()
 		}},
-		// a genesis validator listing a committee twice (stake / edit-stake messages reject that in checkCommittees;
-		// ValidateGenesisState does not look at the list)
+		// a genesis validator listing a committee twice: stake / edit-stake messages reject that in checkCommittees;
+		// ValidateGenesisState did not look at the list before 0262f16 and the stake was added to the committee's tally
+		// once per entry. Now the genesis must be rejected (ErrInvalidNumCommittees); should it be accepted again the
+		// oracle reports C12:committee-tally-counts-a-validator-twice.
 		scenario{"genesis-duplicate-committee", func(o *drv.Out, prop string) {
 			g := baseGenesis()
 			g.Validators = []GenVal{{Key: BLSKeys[0], Stake: 1000000, Committees: []uint64{1, 1}, Compound: true, Output: BLSKeys[0].Addr},
@@ -58,6 +63,31 @@ func init() {
 			c.End()
 			emptyBlocks(c, 2)
 			c.Finish()
+		}},
+		// liveness boundary of C12.never_wedged: auto-compounding into a stake just below 2^64 − (everything else). The
+		// guarded additions to Staked / CommitteeStaked / the committee index must not fire as long as the supply
+		// identity holds (no scheduled mint here: F5 is a different boundary), for a validator and for a delegate.
+		scenario{"compound-near-max-stake", func(o *drv.Out, prop string) {
+			for _, delegate := range []bool{false, true} {
+				g := baseGenesis()
+				g.InitialTokensPerBlock = 0
+				rest := uint64(len(g.Accounts))*1000000000 + 5000
+				g.Validators = []GenVal{{Key: BLSKeys[0], Stake: MaxU - rest - 1000, Committees: []uint64{1, 2}, Delegate: delegate, Compound: true, Output: BLSKeys[0].Addr},
+					{Key: BLSKeys[1], Stake: 1000, Committees: []uint64{1}, Output: BLSKeys[1].Addr}}
+				g.Pools = []GenPool{{Id: 1, Amount: 4000}}
+				c, ok := NewChain(o, prop, g)
+				if !ok {
+					panic("scenario genesis rejected")
+				}
+				emptyBlocks(c, 1)
+				c.Mint()
+				c.Subsidy(EdKeys[0], 10000, 1, 900000000)
+				c.Cert(c.Height(), c.Height(), []Member{{BLSKeys[1], 1000, true}}, nil,
+					[]Payment{{BLSKeys[0].Addr, 90, 1}, {EdKeys[1].Addr, 10, 1}})
+				c.End()
+				emptyBlocks(c, 2)
+				c.Finish()
+			}
 		}},
 	)
 }
